@@ -88,8 +88,14 @@ func c17Run(plan *C17Plan) (*c16Violation, map[string]bool) {
 	// loaded machine: messages still queued inside the client when the connection drops are rightly
 	// discarded by it, and the model would count them as delivered.
 	var tcp *testClient
+	// with a slow application the callback count moves only once per handler delay: the stability
+	// window is at least four such delays
+	stable := 100 * time.Millisecond
+	if d := 4 * time.Duration(plan.HandlerDelayMs) * time.Millisecond; d > stable {
+		stable = d
+	}
 	quiesce := func() {
-		deadline := time.Now().Add(5 * time.Second)
+		deadline := time.Now().Add(5*time.Second + 20*stable)
 		lastN, lastID, since := -1, uint64(0), time.Now()
 		for time.Now().Before(deadline) {
 			mu.Lock()
@@ -103,7 +109,7 @@ func c17Run(plan *C17Plan) (*c16Violation, map[string]bool) {
 			id := t.c.NextMessageID()
 			if n != lastN || id != lastID {
 				lastN, lastID, since = n, id, time.Now()
-			} else if time.Since(since) > 100*time.Millisecond {
+			} else if time.Since(since) > stable {
 				return
 			}
 			time.Sleep(5 * time.Millisecond)
@@ -183,9 +189,15 @@ func c17Run(plan *C17Plan) (*c16Violation, map[string]bool) {
 				// drop while the slow application still has notifications queued: wait only until the
 				// client has counted everything that was sent, not until the handlers have seen it
 				deadline := time.Now().Add(5 * time.Second)
-				mu.Lock()
-				t := tcp
-				mu.Unlock()
+				var t *testClient
+				for t == nil && time.Now().Before(deadline) {
+					mu.Lock()
+					t = tcp
+					mu.Unlock()
+					if t == nil {
+						time.Sleep(time.Millisecond) // the server side can be ahead of the client's constructor returning
+					}
+				}
 				for t != nil && t.c.NextMessageID() != cursor+uint64(n) && time.Now().Before(deadline) {
 					time.Sleep(time.Millisecond)
 				}
